@@ -281,3 +281,61 @@ package store
 //@   loop 1 invariant b != nil && enc.PrefixKept(b) && PInv(s) && footprintStable(s) && (forall k int :: PView(s, k) == select(v1, k))
 //@   loop 2 invariant b != nil && enc.PrefixKept(b) && PInv(s) && footprintStable(s) && (forall k int :: PView(s, k) == select(v1, k)) && 0 <= $i2 && $i2 <= len(s.pages)
 //@   loop 3 invariant b != nil && enc.PrefixKept(b) && PInv(s) && footprintStable(s) && (forall k int :: PView(s, k) == select(v1, k)) && 0 <= $i2 && $i2 < len(s.pages) && len(page) == len(s.pages[$i2]) && len(page) > 0
+
+// ForEach (standalone: this store is not part of the interface invariant): sorts the buffer, then walks buffer and
+// pages together. Proved here: it never calls f again after f asked to stop, it stays within bounds, and it leaves
+// the content of the store unchanged (f may do anything outside the store's own storage). Which (index, weight)
+// pairs are passed to f - the functional part of iteration - is NOT specified for this store.
+//@ func BufferedPaginatedStore.ForEach
+//@   serves C04 C12 C14
+//@   requires PInv(s)
+//@   ghost stopped bool := false
+//@   callback f params index, count
+//@   callback f results stop
+//@   callback f requires !stopped
+//@   callback f preserves footprint(s)
+//@   callback f ghost stopped := stop
+//@   ensures PInv(s) && (forall k int :: PView(s, k) == old(PView(s, k)))
+//@   modifies everything()
+//@   ghost v0 array_real := lambda k int :: PView(s, k)
+//@   loop 1 invariant !stopped && PInv(s) && len(s.pages) == old(len(s.pages)) && arr(s.pages) == old(arr(s.pages)) && 0 <= bufferPos && bufferPos <= len(s.buffer) && (forall k int :: PView(s, k) == select(v0, k))
+//@   loop 2 invariant !stopped && PInv(s) && len(s.pages) == old(len(s.pages)) && arr(s.pages) == old(arr(s.pages)) && 0 <= bufferPos && bufferPos <= len(s.buffer) && (forall k int :: PView(s, k) == select(v0, k)) && 0 <= $i1 && $i1 < len(s.pages) && len(page) == len(s.pages[$i1]) && pageOffset == $i1
+//@   loop 3 invariant !stopped && PInv(s) && len(s.pages) == old(len(s.pages)) && arr(s.pages) == old(arr(s.pages)) && 0 <= bufferPos && bufferPos <= len(s.buffer) && (forall k int :: PView(s, k) == select(v0, k)) && 0 <= $i1 && $i1 < len(s.pages) && len(page) == len(s.pages[$i1]) && pageOffset == $i1 && 0 <= $i2 && $i2 < len(page) && lineIndex == $i2
+//@   loop 4 invariant !stopped && PInv(s) && len(s.pages) == old(len(s.pages)) && arr(s.pages) == old(arr(s.pages)) && 0 <= indexBufferStartPos && indexBufferStartPos < bufferPos && bufferPos <= len(s.buffer) && (forall k int :: PView(s, k) == select(v0, k)) && 0 <= $i1 && $i1 < len(s.pages) && len(page) == len(s.pages[$i1]) && pageOffset == $i1 && 0 <= $i2 && $i2 < len(page) && lineIndex == $i2
+//@   loop 5 invariant !stopped && PInv(s) && len(s.pages) == old(len(s.pages)) && arr(s.pages) == old(arr(s.pages)) && 0 <= bufferPos && bufferPos <= len(s.buffer) && (forall k int :: PView(s, k) == select(v0, k))
+//@   loop 6 invariant !stopped && PInv(s) && len(s.pages) == old(len(s.pages)) && arr(s.pages) == old(arr(s.pages)) && 0 <= indexBufferStartPos && indexBufferStartPos < bufferPos && bufferPos <= len(s.buffer) && (forall k int :: PView(s, k) == select(v0, k))
+
+// MinIndex / MaxIndex / KeyAtRank (standalone): proved to stay within bounds, not to panic and to leave the content
+// unchanged (MinIndex and MaxIndex change nothing at all; KeyAtRank sorts the buffer). Which index they return - the
+// functional part - is NOT specified for this store.
+//@ func BufferedPaginatedStore.MinIndex
+//@   serves C04 C12
+//@   requires PInv(s)
+//@   loop 1 invariant isEmpty || in32(minIndex)
+//@   loop 2 invariant (isEmpty || in32(minIndex)) && 0 <= pageIndex - s.minPageIndex && pageIndex - s.minPageIndex <= len(s.pages)
+//@   loop 3 invariant 0 <= lineIndex && lineIndexRangeEnd <= 32 && len(page) == 32
+//@ func BufferedPaginatedStore.MaxIndex
+//@   serves C04 C12
+//@   requires PInv(s)
+//@   loop 1 invariant isEmpty || in32(maxIndex)
+//@   loop 2 invariant (isEmpty || in32(maxIndex)) && (s.minPageIndex + len(s.pages) - 1 <= 9223372036854775807 ==> 0 - 1 <= pageIndex - s.minPageIndex && pageIndex - s.minPageIndex < len(s.pages))
+//@   loop 3 invariant 0 - 1 <= lineIndex && lineIndex < len(page) && 0 <= lineIndexRangeStart && len(page) == 32
+//@ func BufferedPaginatedStore.minIndexWithCumulCount
+//@   serves C04 C01
+//@   requires PInv(s)
+//@   callback predicate params c
+//@   callback predicate results ok
+//@   callback predicate preserves everything()
+//@   ensures PInv(s) && footprintStable(s) && (forall k int :: PView(s, k) == old(PView(s, k)))
+//@   modifies arr(s.buffer)
+//@   ghost v0 array_real := lambda k int :: PView(s, k)
+//@   loop 1 invariant PInv(s) && footprintStable(s) && 0 <= bufferPos && bufferPos <= len(s.buffer) && (forall k int :: PView(s, k) == select(v0, k))
+//@   loop 2 invariant PInv(s) && footprintStable(s) && 0 <= bufferPos && bufferPos <= len(s.buffer) && (forall k int :: PView(s, k) == select(v0, k)) && 0 <= $i1 && $i1 < len(s.pages) && len(page) == len(s.pages[$i1]) && pageOffset == $i1
+//@   loop 3 invariant PInv(s) && footprintStable(s) && 0 <= bufferPos && bufferPos <= len(s.buffer) && (forall k int :: PView(s, k) == select(v0, k)) && 0 <= $i1 && $i1 < len(s.pages) && len(page) == len(s.pages[$i1]) && pageOffset == $i1 && 0 <= $i2 && $i2 < len(page) && lineIndex == $i2
+//@   loop 4 invariant PInv(s) && footprintStable(s) && 0 <= bufferPos && bufferPos <= len(s.buffer) && (forall k int :: PView(s, k) == select(v0, k))
+//@ func BufferedPaginatedStore.KeyAtRank
+//@   serves C04 C01 C11
+//@   requires PInv(s)
+//@   ensures PInv(s) && footprintStable(s) && (forall k int :: PView(s, k) == old(PView(s, k)))
+//@   modifies arr(s.buffer)
+//@   foreach 1 invariant true
